@@ -35,6 +35,11 @@ func (e *bcdEncoder) Decode(src []byte, length int) ([]byte, int, error) {
 		return nil, 0, fmt.Errorf("length should be positive, got %d", length)
 	}
 
+	// check the length against the data before allocating anything for it
+	if length/2+length%2 > len(src) {
+		return nil, 0, fmt.Errorf("not enough data to decode. expected len %d, got %d", length/2+length%2, len(src))
+	}
+
 	// for BCD encoding the length should be even
 	decodedLen := length
 	if length%2 != 0 {
